@@ -102,6 +102,10 @@ Theorem C19_reachable_exact : forall pk ops w,
   ops_u64 ops -> run true (init pk) ops = Ok w -> Exact w.
 Proof. exact run_debug_Exact. Qed.
 
+Theorem C19_reachable_exact_release : forall pk ops w,
+  ops_u64 ops -> run false (init pk) ops = Ok w -> sum_unspent w < W64 -> Exact w.
+Proof. exact run_release_Exact. Qed.
+
 (* ---- (3) on a chain without reorganisation the unspent set is the ledger's ----
    [chain_run]: blocks wound in order (Blockchain::add_block: wallet wind, ledger
    wind, delete_block of the block 2*gp back), interleaved with transactions built
@@ -153,5 +157,6 @@ Print Assumptions C19_built_tx_ok_refuted_cap.
 Print Assumptions C19_built_tx_ok_refuted_stale.
 Print Assumptions C19_built_tx_ok.
 Print Assumptions C19_reachable_exact.
+Print Assumptions C19_reachable_exact_release.
 Print Assumptions C19_matches_ledger.
 Print Assumptions C19_no_stale_without_reorg.
